@@ -48,6 +48,8 @@ VOCAB = {
               T("adrp x0, {t}", "ref", 4, "adrp", 0), T("add x0, x0, :lo12:{t}", "ref", 4, "add", 0, attrs=("LO12",)),
               T("adrp x0, :got:{t}", "ref", 4, "adrp", 0, attrs=("GOT",)), T("ldr x0, [x0, :got_lo12:{t}]", "ref", 4, "ldr", 0, attrs=("GOT", "LO12")),
               T("ldr x0, [x0, :lo12:{t}]", "ref", 4, "ldr", 0, attrs=("LO12",)), T("adr x0, {t}", "ref", 4, "adr", 0),
+              T("add x0, x0, :lo12:{t}+8", "ref", 4, "add", 0, attrs=("LO12",), addend=8), T("adrp x0, {t}+8", "ref", 4, "adrp", 0, addend=8),
+              T("ldr x0, [x0, :got_lo12:{t}]", "ref", 4, "ldr", 0, attrs=("GOT", "LO12")),
               T(".word 7", "data", 4), T(".byte 1, 2, 3, 4", "data", 4), T(".xword {t}", "dsym", 8, opoff=0, opsize=8), T(".word {t}+8", "dsym", 4, opoff=0, opsize=4, addend=8),
               T('.ascii "abcd"', "data", 4)],
     # MIPS32 (.set reorder: the assembler fills every delay slot with a nop, which starts the next block).  `b` is the pseudo
@@ -58,6 +60,7 @@ VOCAB = {
              T("b {t}", "jcc", 8, "b", 0, cond=True, judge=False, csize=4), T("jr $ra", "ijmp", 8, "jr", judge=False, csize=4),
              T("lui $t0, %hi({t})", "ref", 4, "lui", 0, attrs=("HI",)), T("addiu $t0, $t0, %lo({t})", "ref", 4, "addiu", 0, attrs=("LO",)),
              T("lw $t9, %got({t})($gp)", "ref", 4, "lw", 0, attrs=("GOT",)), T("lw $t9, %call16({t})($gp)", "ref", 4, "lw", 0, attrs=("GOT",)),
+             T("lui $t0, %hi({t}+8)", "ref", 4, "lui", 0, attrs=("HI",), addend=8), T("addiu $t0, $t0, %lo({t}+8)", "ref", 4, "addiu", 0, attrs=("LO",), addend=8),
              T(".word 7", "data", 4), T(".word {t}", "dsym", 4, opoff=0, opsize=4), T(".4byte {t}+8", "dsym", 4, opoff=0, opsize=4, addend=8),
              T('.ascii "abcd"', "data", 4)],
 }
@@ -329,6 +332,21 @@ def run(target, items, pie, allow_undef, unreachable=False, suffix="_sfx1", cut=
     return " ".join(parts), out, res, msyms
 
 
+def fresh_proxies(res, msyms):
+    """a return goes to a fresh proxy, an indirect transfer to a fresh proxy: such a proxy is not a symbol's referent, has exactly one
+    incoming edge and is one of the result's proxies"""
+    named = {id(s.referent) for s in list(res.symbols) + list(msyms.values()) if isinstance(s.referent, gtirb.ProxyBlock)}
+    for e in res.cfg:
+        t = e.target
+        if isinstance(t, gtirb.ProxyBlock) and id(t) not in named:
+            n = sum(1 for _ in res.cfg.in_edges(t))
+            if n != 1:
+                return f"the proxy that the {e.label.type.name} edge of the block at offset {e.source.offset} leads to has {n} incoming edges: it is shared"
+            if not any(t is p for p in res.proxies):
+                return f"the proxy of a {e.label.type.name} edge is not among the result's proxies"
+    return None
+
+
 CS = {"X64": ("CS_ARCH_X86", "CS_MODE_64"), "IA32": ("CS_ARCH_X86", "CS_MODE_32"), "ARM64": ("CS_ARCH_ARM64", "CS_MODE_ARM"),
       "MIPS32": ("CS_ARCH_MIPS", "CS_MODE_MIPS32")}
 
@@ -461,6 +479,9 @@ def check(target, items, res, msyms, pie, unreachable=False, suffix="_sfx1"):
         for p in sec.symbolic_expressions:
             if (name, p) not in expected_positions:
                 return f"unexpected symbolic expression at {name}+{p}"
+    w = fresh_proxies(res, msyms)
+    if w:
+        return w
     # ---- data conversion
     for name, sec in res.sections.items():
         for k, b in enumerate(sec.blocks):
